@@ -14,7 +14,7 @@ pub fn property(id: &str) -> Option<Box<dyn engine::Property>> {
             let id: &'static str = Box::leak(id.to_string().into_boxed_str());
             Some(Box::new(lab::props::LabProp { id }))
         }
-        "C01" | "C11" | "C12" | "C13" => {
+        "C01" | "C11" | "C12" | "C13" | "C14" => {
             let id: &'static str = Box::leak(id.to_string().into_boxed_str());
             Some(Box::new(stream::props::StreamProp { id }))
         }
